@@ -349,6 +349,9 @@ type dnsQuery struct {
 
 type rawClient struct {
 	Msgs []rawMsg `json:"msgs"` // copy-tcp: exactly one
+	// copy-tcp: 0 = copy service whose director host carries a port, 1 = copy service on
+	// the director without a port that the two http-proxy ports share
+	Svc int `json:"svc,omitempty"`
 }
 
 type rawCase struct {
@@ -459,12 +462,18 @@ func checkRawOnce(t testing.TB, c rawCase) error {
 	e := getEnv(t)
 	epoch := nextEpoch()
 	d0 := e.decoy.count()
+	copyBackends := []*tcpBackend{e.copyB, e.copyB2}
+	copyPorts := []int{e.copyPort, e.copy2Port}
 	e.copyB.reset()
+	e.copyB2.reset()
+	e.http2B.reset() // they share the port-less director with the second copy service
+	e.http3B.reset()
 	e.copyUB.reset()
 	e.dnsUB.reset()
 	e.dnsTB.reset()
 	defer func() {
 		e.copyB.reset()
+		e.copyB2.reset()
 		e.copyUB.reset()
 		e.dnsUB.reset()
 		e.dnsTB.reset()
@@ -478,12 +487,12 @@ func checkRawOnce(t testing.TB, c rawCase) error {
 	var proxyPort int
 	switch c.Kind {
 	case "copy-tcp":
-		proxyPort = e.copyPort
 		for ci, cl := range c.Clients {
 			m := cl.Msgs[0]
-			e.copyB.mu.Lock()
-			e.copyB.scripts[tagOf(ci)] = &tcpScript{expect: 1 + len(payloads[ci][0]), reply: c.reply(ci, 0, 0, nil), cuts: m.RCuts}
-			e.copyB.mu.Unlock()
+			be := copyBackends[cl.Svc%2]
+			be.mu.Lock()
+			be.scripts[tagOf(ci)] = &tcpScript{expect: 1 + len(payloads[ci][0]), reply: c.reply(ci, 0, 0, nil), cuts: m.RCuts}
+			be.mu.Unlock()
 		}
 	case "copy-udp", "dns-udp":
 		ub, proxyPort = e.copyUB, e.copyUPort
@@ -524,7 +533,7 @@ func checkRawOnce(t testing.TB, c rawCase) error {
 			defer wg.Done()
 			switch c.Kind {
 			case "copy-tcp":
-				results[ci] = runCopyTCP(ci, e.addr(proxyPort), tagOf(ci), payloads[ci][0], c.Clients[ci].Msgs[0].Cuts, len(c.reply(ci, 0, 0, nil)))
+				results[ci] = runCopyTCP(ci, e.addr(copyPorts[c.Clients[ci].Svc%2]), tagOf(ci), payloads[ci][0], c.Clients[ci].Msgs[0].Cuts, len(c.reply(ci, 0, 0, nil)))
 			case "dns-tcp":
 				results[ci] = runDNSTCP(ci, e.addr(proxyPort), c.Clients[ci], payloads[ci])
 			default:
@@ -546,24 +555,34 @@ func checkRawOnce(t testing.TB, c rawCase) error {
 	var pending error
 	switch c.Kind {
 	case "copy-tcp":
-		e.copyB.mu.Lock()
-		stray := append([]string(nil), e.copyB.stray...)
-		remotes := append([]string(nil), e.copyB.remotes...)
-		seen := map[byte][]*tcpSeen{}
-		for k, v := range e.copyB.seen {
-			seen[k] = v
+		// scripts are installed only at the backend configured for the port the client
+		// connected to: a stream arriving anywhere else is a stream "no client sent" there
+		seenAt := make([]map[byte][]*tcpSeen, len(copyBackends))
+		for bi, be := range copyBackends {
+			be.mu.Lock()
+			stray := append([]string(nil), be.stray...)
+			remotes := append([]string(nil), be.remotes...)
+			seenAt[bi] = map[byte][]*tcpSeen{}
+			for k, v := range be.seen {
+				seenAt[bi][k] = v
+			}
+			be.mu.Unlock()
+			if len(stray) > 0 {
+				return fmt.Errorf("backend %s received %s (to the proxy port it is configured for)", be.l.Addr(), stray[0])
+			}
+			if err := checkRemotes(remotes); err != nil {
+				return err
+			}
 		}
-		e.copyB.mu.Unlock()
-		if len(stray) > 0 {
-			return fmt.Errorf("backend received %s", stray[0])
-		}
-		if err := checkRemotes(remotes); err != nil {
-			return err
+		for _, hb := range []*httpBackend{e.http2B, e.http3B} {
+			if _, _, stray, _ := hb.snapshot(); len(stray) > 0 {
+				return fmt.Errorf("http backend %s (another port of the shared director) received: %s", hb.l.Addr(), stray[0])
+			}
 		}
 		for ci := range c.Clients {
 			r := results[ci]
 			want := append([]byte{tagOf(ci)}, payloads[ci][0]...)
-			ss := seen[tagOf(ci)]
+			ss := seenAt[c.Clients[ci].Svc%2][tagOf(ci)]
 			if len(ss) > 1 {
 				return fmt.Errorf("client %d: its stream reached the backend on %d connections", ci, len(ss))
 			}
@@ -949,6 +968,7 @@ func genRawCase(t *rapid.T, kind string) rawCase {
 			m.Cuts = genCuts(t, "cut", m.Data.Len+1)
 			m.RCuts = genCuts(t, "rcut", m.Replies[0].Len)
 			cl.Msgs = []rawMsg{m}
+			cl.Svc = rapid.IntRange(0, 1).Draw(t, "svc")
 		case "copy-udp":
 			k := rapid.IntRange(1, 4).Draw(t, "ndgram")
 			for j := 0; j < k; j++ {
@@ -1021,7 +1041,7 @@ func (c rawCase) nontrivial() bool {
 	return false
 }
 
-const rawRule = "copy over tcp: 1..3 concurrent clients, each one stream (tag byte + 0..64 KiB random / text / look-alike bytes) written in 1..5 pieces, backend answers with a stream 0..64 KiB in 1..5 pieces; copy over udp: 1..4 datagrams per client (0..60000 bytes), 0..2 reply datagrams each; dns-proxy over udp: 1..4 queries per client (own encoder: opcode, RD, 1..2 questions, 0..4 labels, 9 qtypes, optional OPT record; 1 in 7 is an arbitrary non-DNS datagram for which only non-corruption is asserted), one reply datagram 4..4004 bytes each; dns-proxy over tcp: 1..3 length-prefixed queries per connection with cuts in the first 40 bytes; oracle: backend received exactly the client's bytes, client received exactly the backend's, events attributed to the client's address, decoy untouched; non-trivial = a non-empty stream/datagram or >=2 datagrams on one client"
+const rawRule = "copy over tcp: two copy services (own director with a port / the port-less director shared with two http-proxy ports, drawn per client), 1..3 concurrent clients, each one stream (tag byte + 0..64 KiB random / text / look-alike bytes) written in 1..5 pieces, backend answers with a stream 0..64 KiB in 1..5 pieces; copy over udp: 1..4 datagrams per client (0..60000 bytes), 0..2 reply datagrams each; dns-proxy over udp: 1..4 queries per client (own encoder: opcode, RD, 1..2 questions, 0..4 labels, 9 qtypes, optional OPT record; 1 in 7 is an arbitrary non-DNS datagram for which only non-corruption is asserted), one reply datagram 4..4004 bytes each; dns-proxy over tcp: 1..3 length-prefixed queries per connection with cuts in the first 40 bytes; oracle: backend received exactly the client's bytes, client received exactly the backend's, events attributed to the client's address, decoy untouched; non-trivial = a non-empty stream/datagram or >=2 datagrams on one client"
 
 func runRaw(t *testing.T, name, kind string, checks int) {
 	r := vlib.Open(prop)
@@ -1047,6 +1067,11 @@ func runRaw(t *testing.T, name, kind string, checks int) {
 			fp = vlib.JSON(c)
 		}
 		r.Case(fmt.Sprintf("%s/clients=%d", kind, len(c.Clients)), fp, func() interface{} { return c })
+		if kind == "copy-tcp" {
+			for _, cl := range c.Clients {
+				r.Label("copy-tcp/director="+[]string{"host-with-port", "shared-portless"}[cl.Svc%2], 1)
+			}
+		}
 		if err := checkRaw(t, c); err != nil {
 			if isInfra(err) {
 				infraExit(err)
